@@ -68,6 +68,7 @@ type Run struct {
 	distinct       map[uint64]struct{}
 	mergedDistinct int
 	added          map[string]bool
+	cleanup        []func()
 }
 
 var (
@@ -272,8 +273,14 @@ func (r *Run) LoadReplay(v any) error {
 	return json.Unmarshal(body.Input, v)
 }
 
+// OnFinish registers a cleanup that runs before Finish exits the process (deferred calls do not survive os.Exit).
+func (r *Run) OnFinish(f func()) { r.cleanup = append(r.cleanup, f) }
+
 // Finish writes the evidence file, prints KNOWN-FINDING lines and exits.
 func (r *Run) Finish() {
+	for _, f := range r.cleanup {
+		f()
+	}
 	if r.workerOut != "" {
 		r.finishWorker()
 	}
